@@ -18,6 +18,7 @@ import (
 	"0chain.net/chaincore/chain"
 	"0chain.net/chaincore/client"
 	"0chain.net/chaincore/node"
+	"0chain.net/chaincore/round"
 	"0chain.net/core/encryption"
 	"github.com/0chain/common/core/logging"
 	"go.uber.org/zap"
@@ -39,6 +40,7 @@ type world struct {
 	pool  *node.Pool           // pool 0: the magic block's sharders
 	pools map[int64]*node.Pool // side pools 1..7 (other sharder pools that may hold the same node objects)
 	objs  map[int64]*node.Node // node objects made by `obj`
+	round int64                // block round of the chain-level questions
 }
 
 func (w *world) poolN(p int64) *node.Pool {
@@ -61,12 +63,13 @@ var chainPool = sync.Pool{New: func() interface{} {
 // operations read — the configuration and the magic block with its pools — is replaced here).
 func newWorld(nrepl int) *world {
 	c := chainPool.Get().(*chain.Chain)
+	c.MagicBlockStorage = round.NewRoundStartingStorage() // a recycled chain must not keep the magic blocks of another case
 	c.ChainConfig = chain.NewConfigImpl(&chain.ConfigData{NumReplicators: nrepl})
 	mb := block.NewMagicBlock()
 	mb.Miners = node.NewPool(node.NodeTypeMiner)
 	mb.Sharders = node.NewPool(node.NodeTypeSharder)
 	c.SetMagicBlock(mb)
-	return &world{c: c, pool: mb.Sharders, pools: map[int64]*node.Pool{}, objs: map[int64]*node.Node{}}
+	return &world{c: c, pool: mb.Sharders, pools: map[int64]*node.Pool{}, objs: map[int64]*node.Node{}, round: 1}
 }
 
 func isID(s string) bool {
@@ -133,6 +136,13 @@ func impl(ops []string) []string {
 	sharder := func(id string) *node.Node {
 		if nd := w.pool.GetNode(id); nd != nil {
 			return nd // the pool's own object (identity is by pointer in IsInTop)
+		}
+		return mkNode(id, "")
+	}
+	// the node object to ask the chain about: the one held by the sharder pool in force for the round
+	chainSharder := func(id string) *node.Node {
+		if nd := w.c.GetMagicBlock(w.round).Sharders.GetNode(id); nd != nil {
+			return nd
 		}
 		return mkNode(id, "")
 	}
@@ -207,6 +217,25 @@ func impl(ops []string) []string {
 					return
 				}
 				outs[i] = "ok"
+			case f[0] == "mb" && len(f) == 3:
+				p, ok1 := parseInt(f[1])
+				st, ok2 := parseInt(f[2])
+				if !ok1 || !ok2 || p < 0 || p >= 8 || st < 0 || strings.HasPrefix(f[1], "-") || strings.HasPrefix(f[2], "-") {
+					return
+				}
+				mb := block.NewMagicBlock()
+				mb.StartingRound = st
+				mb.Miners = node.NewPool(node.NodeTypeMiner)
+				mb.Sharders = w.poolN(p)
+				w.c.SetMagicBlock(mb)
+				outs[i] = "ok"
+			case f[0] == "round" && len(f) == 2:
+				r, ok := parseInt(f[1])
+				if !ok {
+					return
+				}
+				w.round = r
+				outs[i] = "ok"
 			case f[0] == "pos" && len(f) == 1:
 				outs[i] = showPos(w.pool)
 			case f[0] == "ppos" && len(f) == 2:
@@ -225,14 +254,16 @@ func impl(ops []string) []string {
 				if !isID(f[2]) {
 					return
 				}
-				sh := sharder(f[2])
-				a := w.c.IsBlockSharderFromHash(1, f[1], sh)
+				// the three entry points of the chain, asked about the same (round, hash, sharder)
+				sh := chainSharder(f[2])
+				a := w.c.IsBlockSharderFromHash(w.round, f[1], sh)
 				blk := &block.Block{}
 				blk.Hash = f[1]
-				blk.Round = 1
+				blk.Round = w.round
 				b := w.c.IsBlockSharder(blk, sh)
-				if a != b {
-					outs[i] = "mismatch-IsBlockSharder-vs-FromHash"
+				c3, _ := w.c.CanShardBlockWithReplicators(w.round, f[1], sh)
+				if a != b || a != c3 {
+					outs[i] = fmt.Sprintf("entry-points-disagree IsBlockSharderFromHash=%v IsBlockSharder=%v CanShardBlockWithReplicators=%v", a, b, c3)
 					return
 				}
 				outs[i] = strconv.FormatBool(a)
@@ -240,7 +271,7 @@ func impl(ops []string) []string {
 				if !isID(f[2]) {
 					return
 				}
-				ok, nodes := w.c.CanShardBlockWithReplicators(1, f[1], sharder(f[2]))
+				ok, nodes := w.c.CanShardBlockWithReplicators(w.round, f[1], chainSharder(f[2]))
 				outs[i] = showNodes(ok, nodes)
 			case (f[0] == "intop" || f[0] == "intopn") && len(f) == 4:
 				n, ok := parseInt(f[3])
@@ -375,6 +406,8 @@ func genHashes(r *rand.Rand, ids []ident, nh int, wellFormedOnly bool) []string 
 func gen(r *rand.Rand, thorough bool, i int) []string {
 	kind := "small"
 	switch {
+	case i%5 == 3:
+		return genTwoMB(r, thorough)
 	case i%5 == 1:
 		kind = "shared"
 	case (!thorough && i%40 == 7) || (thorough && i%60 == 7):
@@ -490,6 +523,74 @@ func gen(r *rand.Rand, thorough bool, i int) []string {
 	return ops
 }
 
+// genTwoMB: a view change that changes the sharder set — a second magic block (starting round S) whose sharder pool is
+// disjoint from / overlaps with / equals the first one's; block rounds around S-1 … S+5 (a magic block is in force from
+// S+4 on) and far away; every question goes through all three entry points of the chain.
+func genTwoMB(r *rand.Rand, thorough bool) []string {
+	n1, n2 := 2+r.Intn(5), 2+r.Intn(5)
+	first := make([]ident, n1)
+	for k := range first {
+		first[k] = mkIdent(r)
+	}
+	var second []ident
+	switch r.Intn(3) {
+	case 0: // disjoint
+	case 1: // overlapping
+		second = append(second, first[:1+r.Intn(n1)]...)
+	default: // a superset
+		second = append(second, first...)
+	}
+	for len(second) < n2 {
+		second = append(second, mkIdent(r))
+	}
+	nrepl := 1 + r.Intn(3)
+	if r.Intn(8) == 0 {
+		nrepl = 0
+	}
+	S := int64(1 + r.Intn(200))
+	if r.Intn(4) == 0 {
+		S = int64(1 + r.Intn(6)) // around the round-5 kink of the offset
+	}
+	if r.Intn(12) == 0 {
+		S = []int64{1<<62 + 3, 1<<63 - 6}[r.Intn(2)]
+	}
+	ops := []string{fmt.Sprintf("new %d", nrepl)}
+	for _, k := range r.Perm(n1) {
+		ops = append(ops, fmt.Sprintf("add %s %s", first[k].id, first[k].pk))
+	}
+	for k, id := range second {
+		ops = append(ops, fmt.Sprintf("obj %d %s %s", k+1, id.id, id.pk), fmt.Sprintf("padd 1 %d", k+1))
+	}
+	ops = append(ops, fmt.Sprintf("mb 1 %d", S))
+	if r.Intn(5) == 0 { // a third magic block going back to the first set
+		ops = append(ops, fmt.Sprintf("mb 0 %d", S+int64(1+r.Intn(8))))
+	}
+	all := append(append([]ident{}, first...), second...)
+	rounds := []int64{S - 1, S, S + 1, S + 2, S + 3, S + 4, S + 5}
+	if S < 1<<62 {
+		rounds = append(rounds, 0, 1, 4, 5, S+100, 1<<63-1, -1<<63)
+	}
+	nh := 1 + r.Intn(2)
+	for q := 0; q < nh; q++ {
+		b := make([]byte, 32)
+		r.Read(b)
+		h := hex.EncodeToString(b)
+		for _, rd := range rounds {
+			if r.Intn(4) == 0 {
+				continue
+			}
+			ops = append(ops, fmt.Sprintf("round %d", rd))
+			for _, id := range all {
+				if r.Intn(2) == 0 {
+					ops = append(ops, fmt.Sprintf("isbs %s %s", h, id.id))
+				}
+			}
+			ops = append(ops, fmt.Sprintf("repl %s %s", h, all[r.Intn(len(all))].id))
+		}
+	}
+	return ops
+}
+
 // ---- oracle ----------------------------------------------------------------------------------------------------------
 
 func popScore(id, h []byte) int {
@@ -537,6 +638,40 @@ func oracle(ops, outs []string) *corr.Violation {
 		answers  map[string]string
 		side     bool // node objects were (also) put into other pools: SetIndex may be another pool's
 		posFresh bool // the last AddNode was to pool 0
+		pids     map[string]map[string]bool // members of the side pools
+		mbS      []int64                    // further magic blocks: starting rounds …
+		mbP      []string                   // … and their sharder pools
+		round    int64
+	}
+	// the sharder pool in force for a block round: the magic block with the greatest starting round <= the offset round
+	// (round itself below 5, round-4 from 5 on), the latest one when none starts earlier; pool "0" starts at round 0
+	inForce := func(g *seg) map[string]bool {
+		q := g.round
+		if q >= 5 {
+			q -= 4
+		}
+		bestS, bestP, lastS, lastP := int64(-1), "", int64(0), "0"
+		if q >= 0 {
+			bestS, bestP = 0, "0"
+		}
+		for k, st := range g.mbS {
+			if st <= q && st >= bestS {
+				bestS, bestP = st, g.mbP[k]
+			}
+			if st >= lastS {
+				lastS, lastP = st, g.mbP[k]
+			}
+		}
+		if bestP == "" {
+			bestP = lastP
+		}
+		if bestP == "0" {
+			return g.ids
+		}
+		if g.pids[bestP] == nil {
+			return map[string]bool{}
+		}
+		return g.pids[bestP]
 	}
 	var segs []*seg
 	var cur *seg
@@ -548,7 +683,7 @@ func oracle(ops, outs []string) *corr.Violation {
 		}
 		if f[0] == "new" {
 			n, _ := strconv.ParseInt(f[1], 10, 64)
-			cur = &seg{nrepl: n, ids: map[string]bool{}, answers: map[string]string{}}
+			cur = &seg{nrepl: n, ids: map[string]bool{}, answers: map[string]string{}, pids: map[string]map[string]bool{}, round: 1}
 			segs = append(segs, cur)
 			objID = map[string]string{}
 			continue
@@ -579,14 +714,35 @@ func oracle(ops, outs []string) *corr.Violation {
 			} else {
 				cur.side = true
 				cur.posFresh = false
+				if cur.pids[f[1]] == nil {
+					cur.pids[f[1]] = map[string]bool{}
+				}
+				cur.pids[f[1]][objID[f[2]]] = true
 			}
+			continue
+		case "mb":
+			st, _ := strconv.ParseInt(f[2], 10, 64)
+			if st == 0 && f[1] != "0" {
+				return nil // replacing the magic block of round 0: outside what the reference tracks
+			}
+			cur.mbS, cur.mbP = append(cur.mbS, st), append(cur.mbP, f[1])
+			continue
+		case "round":
+			cur.round, _ = strconv.ParseInt(f[1], 10, 64)
 			continue
 		case "ppos":
 			continue
 		}
-		cur.answers[op] = outs[i]
-		sorted := make([]string, 0, len(cur.ids))
-		for id := range cur.ids {
+		if strings.HasPrefix(outs[i], "entry-points-disagree") {
+			return mk("entry-points-disagree-on-replicators", fmt.Sprintf("op %d %.110q at block round %d: %s — the three entry points must name the same replicating sharders for the same (round, hash)", i, op, cur.round, outs[i]))
+		}
+		cur.answers[op+"@"+strconv.FormatInt(cur.round, 10)] = outs[i]
+		members := cur.ids
+		if f[0] == "isbs" || f[0] == "repl" {
+			members = inForce(cur) // the chain asks the magic block in force for the round
+		}
+		sorted := make([]string, 0, len(members))
+		for id := range members {
 			sorted = append(sorted, id)
 		}
 		sort.Strings(sorted)
@@ -780,6 +936,7 @@ func main() {
 		Fixed: [][]string{
 			{"new 2", "pos", "scores 00", "isbs 00 " + a, "repl 00 " + a, "intop 00 " + a + " 0", "intopn 00 " + a + " 0", "intop 00 " + a + " -1"},
 			{"new 0", "isbs zz " + a, "repl zz " + a},
+			{"new 1", "mb 1 100", "round 99", "isbs 00 " + a, "round 100", "isbs " + a + " " + a, "repl " + a + " " + a, "round 104", "isbs " + a + " " + a, "repl " + a + " " + a, "mb 9 1", "mb 1 -1", "round x"},
 			{"new 9223372036854775807", "isbs 00 " + a, "new -9223372036854775808", "isbs 00 " + a, "repl 00 " + a, "intop 00 " + a + " 9223372036854775807", "intopn 00 " + a + " -9223372036854775808"},
 		},
 	})
